@@ -335,6 +335,20 @@ func codecsPhase(r *rng.R, thorough bool) {
 				if lastErr == nil {
 					propFail("C20 overread-56 case=%s bool decoder returned 8 values past the last one (beyond the end of its column) with Error()==nil", name)
 				}
+				// the same for the float column: the zero padding bits read as "identical to the
+				// previous value" (one bit each), the 8th read past the values is beyond the column
+				lastErr = nil
+				for q := 0; q < 8; q++ {
+					var fv float64
+					lastErr = fd.Decode(&fv)
+					emit("cx f64", fmt.Sprintf("%016x eof=%d", math.Float64bits(fv), eofFlag(lastErr)))
+					if lastErr != nil {
+						break
+					}
+				}
+				if lastErr == nil {
+					propFail("C20 overread-56 case=%s f64 decoder returned 8 values past the last one (beyond the end of its column) with a nil error", name)
+				}
 				stats["overread-probes"]++
 			}
 			// between frames: optionally reset codecs and/or dictionaries on both sides
